@@ -9,6 +9,7 @@ import (
 	"sort"
 	"strings"
 	"testing"
+	"time"
 
 	"github.com/zitadel/oidc/v3/pkg/oidc"
 	"github.com/zitadel/oidc/v3/pkg/op"
@@ -389,6 +390,12 @@ func runFaultSweep(t *testing.T, spec kernel.Spec, prop string, idx int) *kernel
 				target()
 				o.Probe("target-warm-run")
 			}
+			// time passes between the history and the target request (the same pause in the pilot and in every case of one
+			// sweep): whatever the provider remembers for a while may or may not have lapsed
+			if d := []time.Duration{0, time.Second, 11 * time.Second, 31 * time.Second}[tape.Sub("pause").Int(4)]; d > 0 {
+				time.Sleep(d)
+				o.SimSeconds += d.Seconds()
+			}
 			first := w.Net.Len()
 			fired := false
 			firedAt := ""
@@ -453,6 +460,40 @@ func runFaultSweep(t *testing.T, spec kernel.Spec, prop string, idx int) *kernel
 			desc := fmt.Sprintf("%s router %s: call %d (%s) answered %s", flow.name, router, k, methodAt(w, r, k), kind)
 			o.Logf("%s -> %d", desc, statusOf(r))
 			judge(o, site+"/"+methodAt(w, r, k), k*8+kindIndex(kind), desc, r, redirect, flow.name == "introspect")
+			if prop == "C09" {
+				// what the failure leaves behind: the fault is over, a moment passes, and ordinary well-formed requests
+				// follow (a token for a service client, a complete login, the key set, the target's endpoint again).
+				// Whatever the failed request made the provider remember, these are answered, not crashed into.
+				w.Store.Inject = nil
+				ac := tape.Sub("aftermath")
+				if d := []time.Duration{0, 0, time.Second, 3 * time.Second, time.Hour}[ac.Int(5)]; d > 0 {
+					time.Sleep(d)
+				}
+				site2 := site + "/after:" + methodAt(w, r, k)
+				after := func(what string, r2 *world.Resp) {
+					o.Probe("requests-after-the-fault-was-over")
+					if r2 != nil {
+						checkAnswersOnce(o, site2, k*8+kindIndex(kind), fmt.Sprintf("%s; then, fault over, %s", desc, what), r2)
+					}
+				}
+				web := w.Store.Clients["web"]
+				oldTT := web.TokenType
+				web.TokenType = op.AccessTokenTypeJWT
+				after("client_credentials for web", w.PostForm("/oauth/token", url.Values{"grant_type": {"client_credentials"}, "scope": {"api"}}, w.RightCreds("web")))
+				web.TokenType = oldTT
+				b2 := w.Net.NewBrowser("after")
+				n0 := w.Net.Len()
+				s2, _ := codeFlow(w, b2, flowOpts{client: "web", scopes: []string{oidc.ScopeOpenID, oidc.ScopeEmail, oidc.ScopeOfflineAccess}})
+				for _, ex := range w.Net.Since(n0) {
+					if ex.Panic != "" {
+						after("a login of web ("+ex.Method+" "+ex.Path+")", &world.Resp{Ex: ex})
+					}
+				}
+				after("keys", rawGet(w, "/keys"))
+				if s2 != nil && s2.tokens != nil && s2.tokens.RefreshToken != "" {
+					after("a refresh", w.PostForm("/oauth/token", url.Values{"grant_type": {"refresh_token"}, "refresh_token": {s2.tokens.RefreshToken}}, w.RightCreds("web")))
+				}
+			}
 		})
 		return
 	}
@@ -489,6 +530,9 @@ func runFaultSweep(t *testing.T, spec kernel.Spec, prop string, idx int) *kernel
 			out.Distinct(fmt.Sprintf("%s/%s/%d/%s/%s", router, flow.name, k, kind, methods[min(k, len(methods))-1]))
 			for f, v := range o.Faults {
 				out.Faults[f] += v
+			}
+			if v := o.Probes["requests-after-the-fault-was-over"]; v > 0 {
+				out.ProbeN("requests-after-the-fault-was-over", v)
 			}
 			out.Violations = append(out.Violations, o.Violations...)
 			out.Log = append(out.Log, o.Log...)
